@@ -138,6 +138,108 @@ class MuEngine(Engine):
         return ok
     def _inline(self, callee):
         return callee in self._relevant or callee in self.generic_atomic or self._is_small_pure(callee)
+    QUEUE_FIELDS = {'mu': 'nsync_mu_s_.waiters', 'cv': 'nsync_cv_s_.waiters'}
+    RING_FIELDS = ('nsync_dll_element_s_.next', 'nsync_dll_element_s_.prev')
+    SLEEP_CALLS = ('nsync_mu_semaphore_p', 'nsync_mu_semaphore_p_with_deadline', 'nsync_sem_wait_with_cancel_')
+
+    def queue_cell(self, wcname, instance):
+        fld = self.QUEUE_FIELDS[wcname]
+        idx = 1
+        return Ptr(instance.base, instance.path + (('f', fld, idx),))
+
+    def cell_tracked(self, st, p):
+        if Engine.cell_tracked(self, st, p):
+            return True
+        # the waiter queue of a mutex / cv is private to the thread that holds that object's spinlock
+        if p.path and p.path[-1][0] == 'f':
+            for cn, fld in self.QUEUE_FIELDS.items():
+                if p.path[-1][1] == fld:
+                    inst = Ptr(p.base, p.path[:-1])
+                    return st.ghost.get(('lk', cn, inst), ('?', 0))[1] == 1
+        return False
+
+    def on_ptr_load(self, st, f, inst, p, sp):
+        if p.path and p.path[-1][0] == 'f':
+            fld = p.path[-1][1]
+            if fld in self.RING_FIELDS:
+                st.nn.add(sp)         # ring invariant of dll.c (established by check C17): next/prev are never NULL
+            elif fld in self.QUEUE_FIELDS.values() and self.cell_tracked(st, p):
+                st.mem[p] = sp        # bind the cell, so that a later NULL test of the loaded value refines the cell too
+
+    def on_transition(self, st, rec):
+        wcn = rec.wc.name
+        cell = Ptr(rec.instance.base, rec.instance.path + (('f', self.QUEUE_FIELDS[wcn], 1),))
+        rec.queue = st.mem.get(cell, None)
+        rec.S_other = {k: v for k, v in st.S.items()}
+        rec.flags = {k: v for k, v in st.ghost.items() if isinstance(k, tuple) and k and k[0] == 'flag'}
+        if rec.new_spin != rec.spin:
+            st.mem.pop(cell, None)
+        if wcn == 'mu':
+            K = self.K
+            inst = rec.instance
+            # C13: final release of the mutex by this thread
+            if (rec.new_hold, rec.new_spin) == ('none', 0) and (rec.hold in ('W', 'R') or st.ghost.get(('flag', 'gave_up_hold', inst))):
+                st.ghost[('flag', 'released', inst)] = 1
+            elif rec.new_hold in ('W', 'R'):
+                st.ghost.pop(('flag', 'released', inst), None)
+            if rec.hold in ('W', 'R') and rec.new_hold == 'none' and rec.new_spin == 1:
+                st.ghost[('flag', 'gave_up_hold', inst)] = 1
+            if rec.new_hold in ('W', 'R'):
+                st.ghost.pop(('flag', 'gave_up_hold', inst), None)
+            if rec.hold in ('W', 'R') and rec.new_hold == 'none' and inst == MU:
+                st.ghost[('flag', 'cond_stale')] = 1
+            # C02.R2: designated-waker debt
+            if rec.pairs:
+                sets = [n & K['MU_DESIG_WAKER'] and not e & K['MU_DESIG_WAKER'] for e, n in rec.pairs]
+                if any(sets):
+                    st.ghost[('flag', 'owes_desig', inst)] = 1
+                elif rec.effect and rec.effect[2] == -1 and all(not n & K['MU_DESIG_WAKER'] for e, n in rec.pairs):
+                    st.ghost.pop(('flag', 'owes_desig', inst), None)
+
+    def rec_ctx(self, st):
+        return (tuple(sorted(((k, v) for k, v in st.mem.items() if k.path and k.path[-1][0] == 'f' and k.path[-1][1] in self.QUEUE_FIELDS.values()), key=repr)),
+                tuple(sorted((k for k in st.ghost if isinstance(k, tuple) and k and k[0] == 'flag'), key=repr)))
+
+    def on_enter(self, st, inst, callee, args):
+        if callee == self.LOCK_SLOW and len(args) >= 3:
+            st.ghost[('flag', 'ls_clear')] = args[2] if isinstance(args[2], int) else -1
+
+    def on_return(self, st, fn, val):
+        st.ghost.pop(('flag', 'slept', fn.name), None)
+        if fn.name == self.LOCK_SLOW:
+            st.ghost.pop(('flag', 'ls_clear'), None)
+
+    def on_indirect_call(self, st, f, inst, cv, args):
+        if isinstance(cv, Ptr) and cv.base == 'client:condition':
+            sym = 'cond:%s:%s' % (f.fn.name, inst.id)
+            self.kill_sym(st, sym)
+            st.S[sym] = frozenset((0, 1))
+            v = ('e', sym, ('s',))
+            st.ghost[('cond_last',)] = v
+            st.ghost.pop(('flag', 'cond_stale'), None)
+            f.regs[inst.id] = v
+            f.idx += 1
+            return [st]
+        return None
+
+    LOCK_SLOW = 'nsync_mu_lock_slow_'
+    CALLER_ONLY_GHOST = (('cond_last',),)
+
+    def on_call(self, st, inst, callee, args):
+        if callee in self.SLEEP_CALLS:
+            st.ghost[('flag', 'slept', st.top.fn.name)] = 1
+        if callee == 'nsync_mu_semaphore_v':
+            for k in [k for k in st.ghost if isinstance(k, tuple) and k[:2] == ('flag', 'owes_desig')]:
+                del st.ghost[k]
+        return None
+
+    def note_access(self, st, inst, p, kind):
+        if isinstance(p, Ptr):
+            for k in st.ghost:
+                if isinstance(k, tuple) and k[:2] == ('flag', 'released') and k[2].base == p.base and p.path[:len(k[2].path)] == k[2].path:
+                    self.record(Record('late_access', inst, st, ptr=p, access=kind, entry=self.entry_name, instance=k[2]),
+                                ('late', inst.fn.name, inst.id, st.stack()))
+
     @staticmethod
     def _waiter_new(eng, st, f, inst, args):
         p = Ptr('waiter:%s:%s' % (f.fn.name, inst.id), ())
